@@ -214,6 +214,23 @@ CLAIMED = {
    note="NUL-free inputs, as the property states (config_read_string stops at a NUL by construction).",
    technique="Coq proof (chunk-composition lemma for the DFA run, induction over chunks) + sliding-offset correspondence (partial)",
    ref="5 (C20)"),
+ "C11": dict(
+   text="Coq theorems (Properties_C11.v, closed under the global context) about the scanner/include-machine model "
+        "(Lexer.v: compiled tables, rule actions, include stack with push / next file / pop over a virtual file system and "
+        "any include function): a ledger invariant proved by induction over the depth budget, the file list of a frame "
+        "and the scan loop - with every token the model records exactly the streams opened and not yet closed by the "
+        "events so far, every close matches the innermost open stream, and a buffer scanned to its end leaves the stack as "
+        "it found it; hence, for every file system, include function and text and for EVERY point at which the parser may "
+        "stop reading (the number of tokens read is universally quantified: every syntax/semantic error position, include "
+        "failure, success), the events of a read that returns, followed by the unwinding, are well bracketed and leave "
+        "nothing open; config_read_file adds its own balanced open/close. Tied to /repo by comparing the real "
+        "fopen/fclose trace (--wrap) event for event with the model on include forests with every fault kind injected at "
+        "every file, plus fd counting, the caller's stream check, ASan and LeakSanitizer.",
+   note="Heap leaks and validity of handed-out file-name strings are pointer-level (LSan/ASan only). That a successful "
+        "parse has read the end-of-input token (so nothing is left to unwind) is a parser fact not proved; the model "
+        "unwinds after the last token read in both cases and the traces are compared.",
+   technique="Coq proof (ledger invariant by nested induction over the include machine; abort point universally quantified) + event-trace correspondence",
+   ref="5 (C11)"),
 }
 
 REASON_PENDING = "not decided in the committed state of this round: the Coq theorem for this property is not yet in the tree, and a property is never claimed on testing alone (DESIGN.md section 11)"
